@@ -19,6 +19,36 @@ CHECKS = {
     "C05": ("exploration", "seq", "runtime monitor: store-directory abstraction compared with a reference model after every call (bounded-exhaustive + random call sequences)",
             "After every call of every sequence (all sequences up to length 3/4 over a 26-op menu, plus long random ones over the whole API) the two reference indexes, the object set and residue are compared with a reference model and a structural invariant.",
             "4/C05", SEQ_NOTE),
+    "C02": ("exploration", "seq", "runtime monitor: post-condition on hex_digests / get_hex_digest against hashlib over long histories on one store instance",
+            "Every store_object / get_hex_digest result of 20-60 call histories on ONE long-lived instance is checked: key set == five defaults + the algorithms named in that call; values == hashlib; all 12 algorithms under every accepted spelling. History dependence is only reachable by running histories, hence exploration.",
+            "4/C02", SEQ_NOTE),
+    "C03": ("exploration", "seq", "runtime monitor: before/after directory abstraction around every re-bind attempt in bounded-exhaustive and random call sequences",
+            "All sequences up to length 3/4 over a 20-op menu that contain a store/tag on an already bound pid, plus random sequences with all data kinds and validation arguments; each attempt must raise an already-exists error and leave the abstraction unchanged (except a new unreferenced object).",
+            "4/C03", SEQ_NOTE),
+    "C04": ("exploration", "seq", "runtime monitor: retrieve every bound pid byte-for-byte after every call over all delete orders of sharing pids with interleaved hostile calls",
+            "k=2..4 prefix-related pids share one object; every delete order x noise call (wrong-data delete_if_invalid, rejected stores, metadata) is run and every still-bound pid is retrieved after each call; last delete must remove the object.",
+            "4/C04", SEQ_NOTE),
+    "C06": ("exploration", "seq", "runtime monitor: independent verdict oracle (hashlib + len) over the full product of content x algorithm x spelling x checksum case x size x prior state x entry point",
+            "The verdict and its consequences (exception class, binding, residue, object presence) are compared with an independent oracle on the full product (thorough) or a stratified sample (quick) of the input space the statement quantifies over.",
+            "4/C06", SEQ_NOTE),
+    "C11": ("exploration", "seq", "runtime monitor: metadata tree abstraction compared with a (pid, format)-keyed model after every call",
+            "All sequences up to length 3 over a 30-44 op metadata menu with colliding pid/format concatenations, plus random length-40 sequences; every retrieve compared byte for byte, every state compared with the model.",
+            "4/C11", SEQ_NOTE),
+    "C14": ("exploration", "config", "runtime monitor: constructor outcome vs tuple-equality oracle + directory snapshot diff over creation x reopening configurations",
+            "Constructor outcome compared with tuple equality of the four pinned values; refused opens must leave the snapshot identical; accepted reopens must serve existing data. thorough enumerates all 200x200 configuration pairs.",
+            "4/C14", SEQ_NOTE),
+    "C15": ("exploration", "config", "runtime monitor: full directory listing compared with an independent implementation of the README layout over the exhaustive configuration grid",
+            "All 120 (depth, width, algorithm) configurations, several random identifier draws each; the complete (path, bytes) set must equal the independently computed one.",
+            "4/C15", SEQ_NOTE),
+    "C17": ("exploration", "config", "runtime monitor: byte-for-byte snapshot diff around rejected and read-only calls generated from a grammar of invalid arguments",
+            "One and two invalid parameters per call for every public method, from empty and populated stores; exception class must be documented and the snapshot (files and directories) identical.",
+            "4/C17", SEQ_NOTE),
+    "C19": ("exploration", "seq", "runtime monitor: relational check - both storing procedures run on copies of the same store, abstractions and results compared",
+            "From every start state reachable by histories of length <=2/3, both documented procedures are executed on copies of the store and compared (state, cid, size, digests, error class).",
+            "4/C19", SEQ_NOTE),
+    "C20": ("exploration", "cli", "runtime monitor: differential run of hashstoreclient.main() against the typed API call on copies of one store",
+            "Every verb x option subset x valid/invalid value is run through the real client entry point and through the API; store abstraction, stdout values and exception classes are compared.",
+            "4/C20", SEQ_NOTE + " -knbvm (Postgres) paths are out of reach."),
 }
 
 NOT_YET = {}
@@ -58,6 +88,10 @@ def main():
         "engines": [
             {"name": "seq", "path": "/verif/hsverif/seqengine.py", "serves_properties": [c for c in CHECKS if CHECKS[c][1] == "seq"],
              "kind_free_text": "sequential differential monitor: real API calls, directory abstraction vs reference model after every call"},
+            {"name": "config", "path": "/verif/hsverif/props/", "serves_properties": [c for c in CHECKS if CHECKS[c][1] == "config"],
+             "kind_free_text": "snapshot / layout monitors around constructor and argument-validation paths"},
+            {"name": "cli", "path": "/verif/hsverif/props/C20.py", "serves_properties": [c for c in CHECKS if CHECKS[c][1] == "cli"],
+             "kind_free_text": "differential monitor: client entry point vs API"},
         ],
         "checks": checks,
         "not_applicable": na,
